@@ -299,6 +299,7 @@ func rulesC12(c *Ctx) {
 	c12KeyFormats(c)
 	rulesC12Round2(c)
 	c12Round3(c)
+	c12Round4(c)
 	depthRule(c, "C12.verify", "a checkpoint is created without error but the restorer rejects every chunk that reaches below that depth (max proof depth exceeded): the checkpoint can never be restored")
 	const rc = "storage/mkvs/checkpoint.restoreChunk"
 	if fn := c.needFn(rule, rc); fn != nil {
@@ -472,6 +473,7 @@ func rulesC13(c *Ctx) {
 	c13Resolvable(c)
 	rulesC13Round2(c)
 	c13Round3(c)
+	c13Round4(c, c.P.BuildIndex())
 	const rule = "C13.commitknown"
 	const cwh = "storage/mkvs.(*tree).commitWithHooks"
 	if fn := c.needFn(rule, cwh); fn != nil {
